@@ -9,7 +9,9 @@ TRANSIENT = {
     "SyncGroup": [15, 16, 27],
     "Heartbeat": [15, 16, 27],
     "OffsetCommit": [14, 15, 16, 27, 7],
-    "OffsetFetch": [14, 15, 16],
+    # OffsetFetch: coordinator failover shows as NOT_COORDINATOR / LOAD_IN_PROGRESS; other codes on the committed-offset lookup
+    # belong to C13's quantifier, not to C04-C06's
+    "OffsetFetch": [14, 16],
     "LeaveGroup": [15, 16],
 }
 # membership errors (in a real cluster they come with coordinator state; placed on single replies only where the
